@@ -160,6 +160,14 @@ func checkC07(c *core.Ctx, r *core.Report) {
 					}
 					if cons.set.hasCallee(ci) {
 						reached = append(reached, in)
+					} else if h := ci.Common().StaticCallee(); h != nil && h.Blocks != nil && core.IsRepoPkg(core.FnPkgPath(h)) {
+						// the consumer inside a helper called from here (the block extracted into a method)
+						for _, cj := range core.CallsIn(h) {
+							if cons.set.hasCallee(cj) {
+								reached = append(reached, in)
+								break
+							}
+						}
 					}
 				}
 				return true
@@ -174,14 +182,14 @@ func checkC07(c *core.Ctx, r *core.Report) {
 	}
 	r.Floor("ORDER", "column-writer goroutines in AppendWipToSegfile", nGo, 1)
 
-	isRunningMeta := directPred(objs(writeRunning, writeSfm))
-	checkOrder(c, r, appendWip, "flushBlockSummary", sm.mustPred(objs(flushBlockSummary)), "WriteRunningSegMeta", isRunningMeta, 1,
+	isRunningMeta := objs(writeRunning, writeSfm)
+	checkOrderDeep(c, r, sm, appendWip, "flushBlockSummary", objs(flushBlockSummary), "WriteRunningSegMeta", isRunningMeta, false, 1,
 		"the running .sfm carries NumBlocks/RecordCount and is what recovery adopts; a crash after it but before the block summary exposes a block recovery cannot read")
-	checkOrder(c, r, appendWip, "FlushSegStats", sm.mustPred(objs(flushSegStats)), "WriteRunningSegMeta", isRunningMeta, 1,
+	checkOrderDeep(c, r, sm, appendWip, "FlushSegStats", objs(flushSegStats), "WriteRunningSegMeta", isRunningMeta, false, 1,
 		"the running .sfm must not announce records whose segment statistics are not on disk yet")
-	checkOrder(c, r, appendWip, "flushBlockSummary", sm.mustPred(objs(flushBlockSummary)), "resetWipBlock", directPred(objs(resetWip)), 1,
+	checkOrderDeep(c, r, sm, appendWip, "flushBlockSummary", objs(flushBlockSummary), "resetWipBlock", objs(resetWip), false, 1,
 		"the wip block must not be reset before its summary was flushed")
-	checkOrder(c, r, appendWip, "WriteRunningSegMeta", sm.mustPred(objs(writeRunning, writeSfm)), "resetWipBlock", directPred(objs(resetWip)), 1,
+	checkOrderDeep(c, r, sm, appendWip, "WriteRunningSegMeta", objs(writeRunning, writeSfm), "resetWipBlock", objs(resetWip), false, 1,
 		"the flush is complete (and acknowledged by the caller) only when the running .sfm covers the block")
 
 	// ---------------------------------------------------------------- (3)
@@ -191,11 +199,11 @@ func checkC07(c *core.Ctx, r *core.Report) {
 	addToMeta := c.Obj(pkgMeta, "AddSegMetaToMetadata")
 	cleanup := c.Obj(pkgWriter, "CleanupUnrotatedSegment")
 	removeUnrot := c.Obj(pkgWriter, "removeSegKeyFromUnrotatedInfo")
-	checkOrder(c, r, rotate, "addSegmeta", sm.mustPred(objs(addSegmeta, bulkAdd)), "AddSegMetaToMetadata", directPred(objs(addToMeta)), 1,
+	checkOrderDeep(c, r, sm, rotate, "addSegmeta", objs(addSegmeta, bulkAdd), "AddSegMetaToMetadata", objs(addToMeta), false, 1,
 		"a segment becomes visible as rotated only after its segmeta entry is durable")
-	checkOrder(c, r, rotate, "addSegmeta", sm.mustPred(objs(addSegmeta, bulkAdd)), "CleanupUnrotatedSegment", sm.mayPred(objs(cleanup, removeUnrot)), 1,
+	checkOrderDeep(c, r, sm, rotate, "addSegmeta", objs(addSegmeta, bulkAdd), "CleanupUnrotatedSegment", objs(cleanup, removeUnrot), true, 1,
 		"the open segment is forgotten only after its segmeta entry is durable")
-	checkOrder(c, r, rotate, "AddSegMetaToMetadata", sm.mustPred(objs(addToMeta)), "CleanupUnrotatedSegment", sm.mayPred(objs(cleanup, removeUnrot)), 1,
+	checkOrderDeep(c, r, sm, rotate, "AddSegMetaToMetadata", objs(addToMeta), "CleanupUnrotatedSegment", objs(cleanup, removeUnrot), true, 1,
 		"the segment must be searchable as rotated before it is removed from the unrotated table")
 	// inside BulkAddRotatedSegmetas the per-segment .sfm precedes the segmeta.json append
 	bulk := c.Fn(pkgWriter, "BulkAddRotatedSegmetas")
@@ -221,7 +229,34 @@ func checkC07(c *core.Ctx, r *core.Report) {
 				}
 			}
 			if ci, ok := in.(ssa.CallInstruction); ok && persists(ci) {
-				reached = in
+				// the counter kept in a local: the persisting call is handed X + k (k >= 1) and X is what every
+				// successful return hands out
+				local := false
+				for _, a := range ci.Common().Args {
+					bo, ok := a.(*ssa.BinOp)
+					if !ok || bo.Op != token.ADD {
+						continue
+					}
+					if k, ok := core.ConstIntValue(bo.Y); !ok || k < 1 {
+						continue
+					}
+					all, nSucc := true, 0
+					for _, ret := range core.Returns(getAndInc) {
+						if core.ReturnSuccess(ret) == core.No {
+							continue
+						}
+						nSucc++
+						if core.RetResult(ret, 0) != bo.X {
+							all = false
+						}
+					}
+					if all && nSucc > 0 {
+						local = true
+					}
+				}
+				if !local {
+					reached = in
+				}
 			}
 			return true
 		})
@@ -248,19 +283,41 @@ func checkC07(c *core.Ctx, r *core.Report) {
 
 	// ---------------------------------------------------------------- (4)
 	syncFn := c.Fn(pkgQuery, "syncSegMetaWithSegFullMeta")
-	readPop := c.Obj(pkgQuery, "readSegFullMetaFileAndPopulate")
 	readSfm := c.Obj(pkgWriter, "ReadSfm")
 	n := 0
-	for _, call := range callsTo(syncFn, readPop) {
+	// the .sfm is read by the recovery function itself, or by a populate helper of the same package that it
+	// calls (today readSegFullMetaFileAndPopulate); the guards are required at whichever place does the read
+	nRead := 0
+	for _, call := range callsTo(syncFn, readSfm) {
 		n++
-		checkErrGuardedUse(c, r, "GUARD", call, "readSegFullMetaFileAndPopulate", "recovery must adopt a segment directory only when its .sfm was read and parsed")
-		checkAdoptedOnSuccess(c, r, "GUARD", call, "readSegFullMetaFileAndPopulate", "every open segment whose .sfm parses carries completed flushes and must be adopted at restart, whatever its counters say (the running .sfm is written before numBlocks is incremented)")
+		nRead++
+		checkErrGuardedUse(c, r, "GUARD", call, "ReadSfm", "recovery must adopt a segment directory only when its .sfm was read and parsed")
+		checkAdoptedOnSuccess(c, r, "GUARD", call, "ReadSfm", "every open segment whose .sfm parses carries completed flushes and must be adopted at restart, whatever its counters say (the running .sfm is written before numBlocks is incremented)")
 	}
-	for _, call := range callsTo(c.Fn(pkgQuery, "readSegFullMetaFileAndPopulate"), readSfm) {
+	for _, ci := range core.CallsIn(syncFn) {
+		hcall, ok := ci.(*ssa.Call)
+		if !ok {
+			continue
+		}
+		h := hcall.Call.StaticCallee()
+		if h == nil || h.Blocks == nil || core.FnPkgPath(h) != core.FnPkgPath(syncFn) {
+			continue
+		}
+		inner := callsTo(h, readSfm)
+		if len(inner) == 0 {
+			continue
+		}
 		n++
-		checkErrGuardedUse(c, r, "GUARD", call, "ReadSfm", "a half-written .sfm must not be adopted")
-		checkErrPropagated(c, r, "GUARD", call, "ReadSfm", "a half-written .sfm must make the populate step fail")
+		checkErrGuardedUse(c, r, "GUARD", hcall, h.Name(), "recovery must adopt a segment directory only when its .sfm was read and parsed")
+		checkAdoptedOnSuccess(c, r, "GUARD", hcall, h.Name(), "every open segment whose .sfm parses carries completed flushes and must be adopted at restart, whatever its counters say (the running .sfm is written before numBlocks is incremented)")
+		for _, call := range inner {
+			n++
+			nRead++
+			checkErrGuardedUse(c, r, "GUARD", call, "ReadSfm", "a half-written .sfm must not be adopted")
+			checkErrPropagated(c, r, "GUARD", call, "ReadSfm", "a half-written .sfm must make the populate step fail")
+		}
 	}
+	r.Floor("GUARD", "reads of the .sfm in the recovery of open segments", nRead, 1)
 	readSfmFn := c.Fn(pkgWriter, "ReadSfm")
 	jsonUnmarshal := c.ExtObj("encoding/json", "Unmarshal")
 	for _, call := range callsTo(readSfmFn, jsonUnmarshal) {
